@@ -123,6 +123,27 @@ pub fn hostile_corpus(rng: &mut Rng) -> Vec<GenFrame> {
         }
         v.push(GenFrame { bytes: frame(ty, &[rng.byte(), rng.byte()]), class: "two-byte" });
     }
+    // session (re-)registrations with names at and past the 64-character cap: ASCII, multi-byte characters straddling
+    // byte 64, invalid UTF-8 (replaced by a 3-byte U+FFFD each), 4-byte characters
+    let mut names: Vec<Vec<u8>> = vec![vec![b'n'; 64], vec![b'n'; 65], vec![b'n'; 300]];
+    for lead in 60..=66usize {
+        let mut n = vec![b'a'; lead];
+        n.extend_from_slice("é€😀é€😀".as_bytes());
+        names.push(n);
+    }
+    names.push("é".repeat(40).into_bytes());
+    names.push("€".repeat(70).into_bytes());
+    names.push("😀".repeat(64).into_bytes());
+    for k in [21usize, 22, 23, 64, 65] {
+        names.push(vec![0xFF; k]);
+    }
+    for n in &names {
+        for flags in [0x10u8, 0x01, 0x00] {
+            let mut p = vec![flags];
+            p.extend_from_slice(n);
+            v.push(GenFrame { bytes: frame(0x10, &p), class: "session-long-name" });
+        }
+    }
     for w in [0x7FC0_0000u32, 0x7F80_0000, 0xFF80_0000, 0xFFFF_FFFF] {
         for pos in [0usize, 3, 5] {
             let mut p = vec![0u8; 25];
